@@ -118,6 +118,30 @@ def TableSound (g : Game P M) (s : Eng M) : Prop :=
 /-- distinct positions have distinct hashes (the `NoCollision` hypothesis) -/
 def HashInj (g : Game P M) : Prop := ∀ p q, g.hash p = g.hash q → p = q
 
+/-- what the table theorems really use of the hash (weaker than `HashInj`, and satisfiable for a game like Tak where
+the hash ignores the ply counter): positions with the same hash are alike for the three-valued verdicts — at every
+depth their negamax values lie on the same side of both thresholds -/
+def HashOK (g : Game P M) : Prop :=
+  ∀ p q, g.hash p = g.hash q → ∀ d,
+    (negamax g d p > Facts.winThreshold ↔ negamax g d q > Facts.winThreshold) ∧
+    (negamax g d p < -Facts.winThreshold ↔ negamax g d q < -Facts.winThreshold)
+
+theorem HashInj.ok {g : Game P M} (h : HashInj g) : HashOK g := by
+  intro p q e d
+  rw [h p q e]
+  exact ⟨Iff.rfl, Iff.rfl⟩
+
+/-- an entry that is sound for `p` is sound for every position with the hash of `p` -/
+theorem SoundE.congr {g : Game P M} (hk : HashOK g) {p q : P} (e : g.hash q = g.hash p) {te : TEntry M}
+    (h : SoundE g te p) : SoundE g te q := by
+  constructor
+  · intro hb hv
+    obtain ⟨d, hd⟩ := h.1 hb hv
+    exact ⟨d, ((hk q p e d).1).mpr hd⟩
+  · intro hb hv
+    obtain ⟨d, hd⟩ := h.2 hb hv
+    exact ⟨d, ((hk q p e d).2).mpr hd⟩
+
 theorem TableSound.setEntry {g : Game P M} {s : Eng M} (h : TableSound g s) (i : Nat) (e : TEntry M)
     (he : ∀ p, g.hash p = e.hash → SoundE g e p) : TableSound g (s.setEntry i e) := by
   intro j e' hj p hp
@@ -243,7 +267,7 @@ structure NodeFacts (g : Game P M) (p : P) (improved : Bool) (v β : Int) : Prop
   win : improved = true → v > Facts.winThreshold → Win g p
   loss : (improved = false ∨ v < β) → v < -Facts.winThreshold → Loss g p
 
-theorem pvStore_sound {g : Game P M} (hinj : HashInj g) (o : Oracle M) (p : P) (depth β : Int) (a : PvAcc M)
+theorem pvStore_sound {g : Game P M} (hinj : HashOK g) (o : Oracle M) (p : P) (depth β : Int) (a : PvAcc M)
     {s : Eng M} (h : TableSound g s) (hf : NodeFacts g p a.improved a.α β) :
     Sat (pvStore o (g.hash p) depth β a s) (fun x => TableSound g x.2 ∧ x.1.2 = a.α) := by
   unfold pvStore
@@ -264,8 +288,7 @@ theorem pvStore_sound {g : Game P M} (hinj : HashInj g) (o : Oracle M) (p : P) (
         refine TableSound.setEntry hs1' slot _ ?_
         intro q hq
         dsimp only at hq
-        have : q = p := hinj q p hq
-        subst this
+        refine SoundE.congr hinj hq ?_
         constructor
         · intro hb hw
           dsimp only at hb hw
@@ -424,7 +447,7 @@ theorem pvInitBest_sound {g : Game P M} (ply : Nat) (pv : List M) {s : Eng M} (h
   · apply Sat.bind; intro pv0 _; exact Sat.pure h
   · apply Sat.bind; intro x _; exact Sat.pure h
 
-theorem pvNode_sound [DecidableEq M] {g : Game P M} (hg : GameOK g) (he : EvalOK g) (hinj : HashInj g)
+theorem pvNode_sound [DecidableEq M] {g : Game P M} (hg : GameOK g) (he : EvalOK g) (hinj : HashOK g)
     {cfg : SOpts} (hpr : Precise cfg) {o : Oracle M} (hord : OrderOK o) (frame : Bool)
     {cpv : PvFn P M} {czw : ZwFn P M} (hp : PvOKt g cpv) (hz : ZwOKt g czw) :
     PvOKt g (pvNode g cfg o frame cpv czw) := by
@@ -544,7 +567,7 @@ theorem zwBody_sound [DecidableEq M] {g : Game P M} (hg : GameOK g) {o : Oracle 
       intro c' hc'; subst hc'; unfold ZCov; intro hl
       exact hsr.1 (by omega) (by omega)
 
-theorem zwStore_sound {g : Game P M} (hinj : HashInj g) (o : Oracle M) (p : P) (depth α : Int) (a : ZwAcc M)
+theorem zwStore_sound {g : Game P M} (hinj : HashOK g) (o : Oracle M) (p : P) (depth α : Int) (a : ZwAcc M)
     {s : Eng M} (h : TableSound g s)
     (hwin : a.didCut = true → α > Facts.winThreshold → Win g p)
     (hloss : a.didCut = false → α < -Facts.winThreshold → Loss g p) :
@@ -567,8 +590,7 @@ theorem zwStore_sound {g : Game P M} (hinj : HashInj g) (o : Oracle M) (p : P) (
       refine TableSound.setEntry hs1' slot _ ?_
       intro q hq
       dsimp only at hq
-      have : q = p := hinj q p hq
-      subst this
+      refine SoundE.congr hinj hq ?_
       constructor
       · intro hb hw
         dsimp only at hb hw
@@ -588,7 +610,7 @@ theorem zwStore_sound {g : Game P M} (hinj : HashInj g) (o : Oracle M) (p : P) (
           omega
     · exact Sat.throw
 
-theorem zwNode_sound [DecidableEq M] {g : Game P M} (hg : GameOK g) (he : EvalOK g) (hinj : HashInj g)
+theorem zwNode_sound [DecidableEq M] {g : Game P M} (hg : GameOK g) (he : EvalOK g) (hinj : HashOK g)
     {cfg : SOpts} (hpr : Precise cfg) {o : Oracle M} (hord : OrderOK o) (frame : Bool)
     {czw : ZwFn P M} (hz : ZwOKt g czw) :
     ZwOKt g (zwNode g cfg o frame czw) := by
@@ -672,7 +694,7 @@ theorem zwNode_sound [DecidableEq M] {g : Game P M} (hg : GameOK g) (he : EvalOK
 /-- **table soundness of the search**: in a precise configuration (with or without a table, whatever it
 contains as long as it is sound, for every move order and every cancellation pattern) both searches keep the
 table sound and return values that are sound for their window -/
-theorem search_sound [DecidableEq M] {g : Game P M} (hg : GameOK g) (he : EvalOK g) (hinj : HashInj g)
+theorem search_sound [DecidableEq M] {g : Game P M} (hg : GameOK g) (he : EvalOK g) (hinj : HashOK g)
     {cfg : SOpts} (hpr : Precise cfg) {o : Oracle M} (hord : OrderOK o) :
     ∀ n, PvOKt g (search g cfg o n).1 ∧ ZwOKt g (search g cfg o n).2 := by
   intro n
@@ -715,7 +737,7 @@ def StepSound (g : Game P M) (p : P) : AOut M → Prop
   | .done a' s' => TableSound g s' ∧ VSound g p a'.v
   | .cancelled s' => TableSound g s'
 
-theorem analyzeStep_sound [DecidableEq M] {g : Game P M} (hg : GameOK g) (he : EvalOK g) (hinj : HashInj g)
+theorem analyzeStep_sound [DecidableEq M] {g : Game P M} (hg : GameOK g) (he : EvalOK g) (hinj : HashOK g)
     {cfg : Cfg} (hpr : Precise cfg.opts) {o : Oracle M} (hord : OrderOK o)
     (p : P) (base i : Int) (a : ALoop M) (s : Eng M) (hts : TableSound g s) :
     Sat (analyzeStep g cfg o p base i a s) (StepSound g p) := by
@@ -748,7 +770,7 @@ theorem analyzeStep_sound [DecidableEq M] {g : Game P M} (hg : GameOK g) (he : E
         · rw [h]; exact ⟨hts1, hv⟩
         · rw [h]; exact ⟨hts1, hv⟩
 
-theorem analyzeLoop_sound [DecidableEq M] {g : Game P M} (hg : GameOK g) (he : EvalOK g) (hinj : HashInj g)
+theorem analyzeLoop_sound [DecidableEq M] {g : Game P M} (hg : GameOK g) (he : EvalOK g) (hinj : HashOK g)
     {cfg : Cfg} (hpr : Precise cfg.opts) {o : Oracle M} (hord : OrderOK o) (p : P) (base : Int) :
     ∀ (n : Nat) (i : Int) (a : ALoop M) (s : Eng M), TableSound g s → VSound g p a.v →
       Sat (analyzeLoop g cfg o p base n i a s) (fun x => TableSound g x.2 ∧ VSound g p x.1.v) := by
@@ -772,7 +794,7 @@ theorem analyzeLoop_sound [DecidableEq M] {g : Game P M} (hg : GameOK g) (he : E
 
 /-- **`Analyze` keeps the table sound and reports a sound verdict** (precise options; any table size and
 content history, any move order, any cancellation) -/
-theorem analyze_sound [DecidableEq M] {g : Game P M} (hg : GameOK g) (he : EvalOK g) (hinj : HashInj g)
+theorem analyze_sound [DecidableEq M] {g : Game P M} (hg : GameOK g) (he : EvalOK g) (hinj : HashOK g)
     {cfg : Cfg} (hpr : Precise cfg.opts) {o : Oracle M} (hord : OrderOK o) (p : P) (s : Eng M)
     (hts : TableSound g s) :
     Sat (analyze g cfg o p s) (fun x => TableSound g x.2 ∧ VSound g p x.1.2.1) := by
@@ -823,7 +845,7 @@ def runCalls [DecidableEq M] (g : Game P M) (cfg : Cfg) : History P M → Eng M 
       | .error e => .error e
       | .ok (rs, s2) => .ok ((p, r.2.1) :: rs, s2)
 
-theorem runCalls_sound [DecidableEq M] {g : Game P M} (hg : GameOK g) (he : EvalOK g) (hinj : HashInj g)
+theorem runCalls_sound [DecidableEq M] {g : Game P M} (hg : GameOK g) (he : EvalOK g) (hinj : HashOK g)
     {cfg : Cfg} (hpr : Precise cfg.opts) :
     ∀ (h : History P M) (s : Eng M), (∀ x ∈ h, OrderOK x.2) → TableSound g s →
       Sat (runCalls g cfg h s) (fun x => TableSound g x.2 ∧ ∀ y ∈ x.1, VSound g y.1 y.2) := by
